@@ -198,44 +198,52 @@ type btProj struct {
 func projectBlocks(store db.KeyValueReader, nblocks int) (btProj, string) {
 	p := btProj{}
 	for n := 0; n < nblocks; n++ {
-		num := uint64(n)
-		ot, rcErr := 0, error(nil)
-		for _, err := range core.TransactionsByBlockNumberAndIndexBucket.Prefix().Add(num).Scan(store) {
-			if err != nil {
-				rcErr = err
-				break
-			}
-			ot++
+		one, bad := projectOne(store, uint64(n))
+		if bad != "" {
+			return p, bad
 		}
-		or := 0
-		for _, err := range core.ReceiptsByBlockNumberAndIndexBucket.Prefix().Add(num).Scan(store) {
-			if err != nil {
-				rcErr = err
-				break
-			}
-			or++
-		}
-		if rcErr != nil {
-			return p, fmt.Sprintf("block %d: scanning old entries: %v", n, rcErr)
-		}
-		if ot != or {
-			return p, fmt.Sprintf("block %d: %d old transaction entries but %d old receipt entries", n, ot, or)
-		}
-		p.Old = append(p.Old, ot)
-		bt, err := core.BlockTransactionsBucket.Get(store, num)
-		switch {
-		case errors.Is(err, db.ErrKeyNotFound):
-			p.Blob = append(p.Blob, -1)
-		case err != nil:
-			return p, fmt.Sprintf("block %d: reading blob: %v", n, err)
-		default:
-			if len(bt.Indexes.Transactions) != len(bt.Indexes.Receipts) {
-				return p, fmt.Sprintf("block %d: blob has %d transactions but %d receipts", n, len(bt.Indexes.Transactions), len(bt.Indexes.Receipts))
-			}
-			p.Blob = append(p.Blob, len(bt.Indexes.Transactions))
-		}
+		p.Old = append(p.Old, one[0])
+		p.Blob = append(p.Blob, one[1])
 	}
 	return p, ""
+}
+
+// projectOne returns (old entries, blob size or -1) of one block.
+func projectOne(store db.KeyValueReader, num uint64) ([2]int, string) {
+	n := int(num)
+	ot, rcErr := 0, error(nil)
+	for _, err := range core.TransactionsByBlockNumberAndIndexBucket.Prefix().Add(num).Scan(store) {
+		if err != nil {
+			rcErr = err
+			break
+		}
+		ot++
+	}
+	or := 0
+	for _, err := range core.ReceiptsByBlockNumberAndIndexBucket.Prefix().Add(num).Scan(store) {
+		if err != nil {
+			rcErr = err
+			break
+		}
+		or++
+	}
+	if rcErr != nil {
+		return [2]int{}, fmt.Sprintf("block %d: scanning old entries: %v", n, rcErr)
+	}
+	if ot != or {
+		return [2]int{}, fmt.Sprintf("block %d: %d old transaction entries but %d old receipt entries", n, ot, or)
+	}
+	bt, err := core.BlockTransactionsBucket.Get(store, num)
+	switch {
+	case errors.Is(err, db.ErrKeyNotFound):
+		return [2]int{ot, -1}, ""
+	case err != nil:
+		return [2]int{}, fmt.Sprintf("block %d: reading blob: %v", n, err)
+	}
+	if len(bt.Indexes.Transactions) != len(bt.Indexes.Receipts) {
+		return [2]int{}, fmt.Sprintf("block %d: blob has %d transactions but %d receipts", n, len(bt.Indexes.Transactions), len(bt.Indexes.Receipts))
+	}
+	return [2]int{ot, len(bt.Indexes.Transactions)}, ""
 }
 
 // ------------------------------------------------------------------ accessor sweep
@@ -250,13 +258,32 @@ type problem struct {
 
 // sweep reads every retained block through the CURRENT accessors and compares with the
 // pre-migration content. lengths: also require commitments.StateDiffLength to be backfilled.
-func sweep(store db.KeyValueStore, p *prepared, lengths bool) []problem {
-	var out []problem
+func sweep(store db.KeyValueStore, p *prepared, lengths bool) (out []problem) {
 	add := func(kind string, n uint64, want, got int, f string, a ...any) {
 		if len(out) < 12 {
 			out = append(out, problem{Kind: kind, Block: n, What: fmt.Sprintf(f, a...), Want: want, Got: got})
 		}
 	}
+	// the accessors read through a store with the lending semantics of the production backend, and
+	// what they returned is kept and compared once more after every other read has happened
+	store = poison(store)
+	type kept struct {
+		n   uint64
+		blk *core.Block
+	}
+	var retained []kept
+	defer func() {
+		for _, k := range retained {
+			c := &p.content[k.n]
+			for i := range c.txs {
+				if i >= len(k.blk.Transactions) || i >= len(k.blk.Receipts) ||
+					!bytes.Equal(mustEnc(&k.blk.Transactions[i]), c.txEnc[i]) || !bytes.Equal(mustEnc(k.blk.Receipts[i]), c.rcEnc[i]) {
+					add("retained-result-changed", k.n, i, i, "the block returned by GetBlockByNumber(%d) changed after later reads (transaction/receipt %d): it aliases a buffer it does not own", k.n, i)
+					break
+				}
+			}
+		}
+	}()
 	bc := chainkit.NewNode(store, false).BC
 	for n := p.first; n <= p.height(); n++ {
 		c := &p.content[n]
@@ -271,6 +298,7 @@ func sweep(store db.KeyValueStore, p *prepared, lengths bool) []problem {
 			add(kind, n, len(c.txs), -1, "GetBlockByNumber: %v", err)
 			continue
 		}
+		retained = append(retained, kept{n, blk})
 		if len(blk.Transactions) != len(c.txs) || len(blk.Receipts) != len(c.rcs) {
 			add("tx-count", n, len(c.txs), len(blk.Transactions), "block has %d transactions / %d receipts, originally %d", len(blk.Transactions), len(blk.Receipts), len(c.txs))
 			continue
@@ -424,7 +452,7 @@ func (g *gateStore) NewBatchWithSize(n int) db.Batch {
 }
 
 func newGate(inner db.KeyValueStore) *gateStore {
-	g := &gateStore{Store: faultkv.Wrap(inner), inner: inner, parked: map[uint64]chan struct{}{},
+	g := &gateStore{Store: faultkv.Wrap(poison(inner)), inner: inner, parked: map[uint64]chan struct{}{},
 		events: make(chan event, 4096), hdr: db.BlockHeaderByNumberKey(0)[0], cmt: db.BlockCommitmentsKey(0)[0]}
 	g.Store.OnWrite = g.onWrite
 	return g
